@@ -3,10 +3,11 @@ package main
 // C08 — names resolve by Go's lexical block scoping.
 
 import (
-	"regexp"
 	"fmt"
 	"go/ast"
+	"go/token"
 	"go/types"
+	"regexp"
 	"strings"
 
 	"golang.org/x/tools/go/cfg"
@@ -14,7 +15,7 @@ import (
 
 func init() {
 	register(&propDef{
-		ID: "C08",
+		ID:          "C08",
 		Explanation: "Shadowing is implemented by paired Begin/End calls and by Shadow at declaration sites. SCO-PAIR: a depth dataflow over go/cfg of every function that opens scopes: on every path Begin/End are balanced and properly nested (depth agrees at every merge, is never negative, and is zero at every exit, including the breaks that leave a case early). SCO-SWAP: in case func the locals table is saved, replaced by a fresh one before the body is compiled and restored afterwards on every path; c.Returns is pushed and popped; the cases that set c.FuncName restore it. SCO-DECL: a slot of c.Locals keyed by a token's text is obtained with lookup.Index only (a) inside compiler.Shadow, (b) on a path where c.Locals.Exists(key) was tested true (a use), (c) in the freshly installed table of a function (parameters), or with a hidden key built from a position; any other such call declares a script variable without shadowing. SCO-ORDER: name resolution tests function-local type, local, package global, builtin in that order, and import aliases are resolved only when no local of that name exists. Not decided: correctness of lookup.shadow/unshadow/Drop renaming for every depth and order (an algorithmic invariant); 'fresh on every iteration'. SCO-BLOCK: every body block (then/else, for/range body, case/default body) is compiled between its own Begin and End. SCO-CHAIN: order facts that make the ~-chain of lookup.shadow/unshadow/Drop a stack (recurse-then-store in shadow; store-then-recurse, no clobber of ~key after the recursion in unshadow; delete-then-unshadow in Drop).",
 		Quick: []ruleDef{
 			{"SCO-PAIR", 1, ruleScoPair},
@@ -25,6 +26,7 @@ func init() {
 			{"SCO-CHAIN", 6, ruleScoChain},
 			{"SCO-IMPORTSET", 2, ruleScoImportSet},
 			{"SCO-RHSFIRST", 3, ruleScoRhsFirst},
+			{"SCO-SIGTYPES", 1, ruleScoSigTypes},
 		},
 	})
 }
@@ -407,7 +409,7 @@ func ruleScoOrder(c *Ctx, r *R) {
 	} else {
 		cs := conds(local)
 		r.check(strings.Contains(cs, "lookup.Exists(c.Locals, tok.Text)"), "local", pos, "locals are tested before package globals", "a name is resolved to a local without testing c.Locals.Exists: "+cs)
-		r.check(strings.Contains(cs, "!(compiler.isLocal(c) && lookup.Exists(c.Globals") || strings.Contains(cs, "!(") && strings.Contains(cs, "c.FuncName"), "local-after-functype", pos, "function-local types are tested first", "function-local type names are no longer resolved before locals: "+cs)
+		scoLocalTypes(c, r, sc.Clause, cs, pos)
 	}
 	global := find("GlobalGet", "compiler.expPrefix(c, tok.Text)")
 	if global == nil {
@@ -557,11 +559,12 @@ func ruleScoBlock(c *Ctx, r *R) {
 // unshadow pops (every entry moves one "~" up, shallowest first).  The recursive call on
 // "~"+key rewrites the entry "~"+key, so the order of the map operations around it is
 // what makes the chain a stack:
-//   shadow:   recurse on "~"+key, THEN store map["~"+key] = old map[key], and vacate key;
-//   unshadow: store map[key] = map["~"+key], THEN recurse on "~"+key; nothing may delete
-//             or overwrite "~"+key after that recursion (it holds the next binding), and
-//             nothing may delete key after the store;
-//   Drop:     delete the dropped key BEFORE unshadow(key) restores the outer binding.
+//
+//	shadow:   recurse on "~"+key, THEN store map["~"+key] = old map[key], and vacate key;
+//	unshadow: store map[key] = map["~"+key], THEN recurse on "~"+key; nothing may delete
+//	          or overwrite "~"+key after that recursion (it holds the next binding), and
+//	          nothing may delete key after the store;
+//	Drop:     delete the dropped key BEFORE unshadow(key) restores the outer binding.
 func ruleScoChain(c *Ctx, r *R) {
 	type ev struct {
 		kind string // store delete rec
@@ -861,4 +864,186 @@ func ruleScoRhsFirst(c *Ctx, r *R) {
 	if n == 0 {
 		r.undecided("rhs-first", "-", "no declaring compile-case analysed")
 	}
+}
+
+// SCO-SIGTYPES: the types of a function's signature (parameters and results) are resolved
+// before the parameters — and later the body's locals — are in scope. A result type
+// resolved after the body was compiled sees a parameter or local of the same name instead
+// of the type: `func mk() *node { node := &node{}; return node }` fails to compile.
+func ruleScoSigTypes(c *Ctx, r *R) {
+	cs, err := c.compileSwitch()
+	if err != nil {
+		r.undecided("compile", "-", err.Error())
+		return
+	}
+	for _, lab := range []string{"func", "var"} {
+		scoTypesFirst(c, r, cs, lab)
+	}
+}
+
+func scoTypesFirst(c *Ctx, r *R, cs *bigSwitch, lab string) {
+	fsc := cs.ByLabel[lab]
+	if fsc == nil {
+		r.undecided(lab, "-", "no compile-case")
+		return
+	}
+	what := map[string]string{
+		"func": "a parameter, receiver or body local named like the type shadows it — `func mk() *node { node := &node{}; return node }` or `func next(node *node) *node` fail with `invalid type`",
+		"var":  "the variable being declared (or an earlier one of the same declaration) shadows its own type — `var node *node = head` or `var list, node *node` fail with `invalid type`",
+	}[lab]
+	// what a statement does, through new helpers
+	var effects func(n ast.Node, depth int) (resolves, declares bool)
+	effects = func(n ast.Node, depth int) (resolves, declares bool) {
+		ast.Inspect(n, func(m ast.Node) bool {
+			call, ok := m.(*ast.CallExpr)
+			if !ok {
+				return true
+			}
+			switch nm := c.CalleeName(call); nm {
+			case "compiler.toType", "compiler.typeFromToken", "typeFromToken":
+				resolves = true
+			case "lookup.Shadow", "lookup.Index", "lookup.Assign":
+				if sel, ok := unparen(call.Fun).(*ast.SelectorExpr); ok && strings.HasSuffix(nosp(c.Src(sel.X)), ".Locals") {
+					declares = true
+				}
+			case "compiler.Shadow":
+				declares = true
+			case "compiler.compile", "compiler.compileAll":
+				// compiling the body declares its locals; the right-hand side of a var declares nothing
+				if lab == "func" {
+					declares = true
+				}
+			default:
+				if o := c.Callee(call); o != nil && c.isNewHelper(o) && depth < 3 {
+					if h := c.DeclOf(o); h != nil && h.Body != nil {
+						a, b := effects(h.Body, depth+1)
+						resolves = resolves || a
+						declares = declares || b
+					}
+				}
+			}
+			return true
+		})
+		return
+	}
+	declared := ""
+	nRes := 0
+	for _, st := range fsc.Clause.Body {
+		res, dec := effects(st, 0)
+		if res {
+			nRes++
+			if declared != "" {
+				r.fail(lab+" types first", c.Pos(st), "compile(\""+lab+"\") resolves a declared type at "+c.Pos(st)+" after names were brought into scope at "+declared+": "+what)
+				return
+			}
+		}
+		if dec && declared == "" {
+			declared = c.Pos(st)
+		}
+	}
+	if nRes == 0 || declared == "" {
+		r.undecided(lab+" types first", c.Pos(fsc.Clause), "type resolution / declaration not found in compile(\""+lab+"\")")
+		return
+	}
+	r.ok(lab+" types first", fmt.Sprintf("%d statements resolve declared types, all before the names are declared at %s", nRes, declared))
+}
+
+// scoLocalTypes: inside a function a name may stand for a type declared in that function.
+// Whether it does is decided by a table of the declarations seen in the open blocks of this
+// compilation — not by the global slot `<func>.<name>`, which outlives the compilation (after
+// a reload the slot of a type the new body no longer declares captures a local variable of
+// that name) and knows nothing of order (a variable declared after the type must shadow it).
+func scoLocalTypes(c *Ctx, r *R, clause *ast.CaseClause, conds string, pos string) {
+	stale := strings.Contains(conds, "lookup.Exists(c.Globals") && strings.Contains(conds, "c.FuncName")
+	r.check(!stale, "local type table", pos, "a function-local type is not looked up in the VM-wide global table",
+		"compile(\"(name)\") decides that a name is a function-local type by c.Globals.Exists(<func>.<name>) before looking at the locals: that slot survives a reload (func total() { acc := 0; .. } returns &{n:0} after a version that declared `type acc struct{n int}`) and a variable declared after the type (`for _, item := range items` after `type item struct{..}`) never shadows it: "+conds)
+	// the resolver used by the case
+	var resolver *ast.FuncDecl
+	ast.Inspect(clause, func(n ast.Node) bool {
+		call, ok := n.(*ast.CallExpr)
+		if !ok || resolver != nil {
+			return true
+		}
+		fd := c.DeclOf(c.Callee(call))
+		if fd == nil || fd.Body == nil || fd.Recv == nil {
+			return true
+		}
+		uses := false
+		ast.Inspect(fd.Body, func(m ast.Node) bool {
+			if sel, ok := m.(*ast.SelectorExpr); ok && sel.Sel.Name == "localTypes" {
+				uses = true
+			}
+			return true
+		})
+		if uses && len(call.Args) == 1 && nosp(c.Src(call.Args[0])) == "tok.Text" {
+			resolver = fd
+		}
+		return true
+	})
+	if resolver == nil {
+		if !stale {
+			r.undecided("local type table", pos, "the resolver of function-local type names was not found")
+		}
+		return
+	}
+	r.check(strings.Contains(conds, "!compiler."+resolver.Name.Name+"(") || strings.Contains(conds, "!("+"compiler."+resolver.Name.Name), "local-after-functype", pos, "the local-type table is consulted before the locals",
+		"a name is resolved to a local variable without consulting the table of function-local types first: "+conds)
+	// the resolver lets a later variable shadow the type: it compares the variable's slot with
+	// the slot count recorded at the type declaration
+	shadow := false
+	ast.Inspect(resolver.Body, func(n ast.Node) bool {
+		be, ok := n.(*ast.BinaryExpr)
+		if !ok {
+			return true
+		}
+		switch be.Op {
+		case token.GEQ, token.GTR, token.LSS, token.LEQ:
+		default:
+			return true
+		}
+		l, rr := nosp(c.Src(be.X)), nosp(c.Src(be.Y))
+		if strings.Contains(l, ".Locals.Index(") && strings.Contains(rr, ".slots") || strings.Contains(rr, ".Locals.Index(") && strings.Contains(l, ".slots") {
+			shadow = true
+		}
+		return true
+	})
+	r.check(shadow, "variable shadows local type", c.Pos(resolver), "a variable declared after the type wins",
+		resolver.Name.Name+" no longer compares the variable's slot with the slots in use at the type declaration: a variable declared after a function-local type of the same name does not shadow it (reads see the type's prototype)")
+	// the table is block scoped: End() drops the entries of the closing block
+	pops := false
+	if end := c.Func("compiler.End"); end != nil {
+		ast.Inspect(end.Body, func(n ast.Node) bool {
+			if as, ok := n.(*ast.AssignStmt); ok && len(as.Lhs) == 1 && strings.HasSuffix(nosp(c.Src(as.Lhs[0])), ".localTypes") {
+				if _, ok := unparen(as.Rhs[0]).(*ast.SliceExpr); ok {
+					pops = true
+				}
+			}
+			return true
+		})
+	}
+	r.check(pops, "local types end with their block", pos, "compiler.End drops the local types of the closing block",
+		"compiler.End no longer drops the entries of the closing block from the local-type table: a type declared in an inner block keeps capturing the name for the rest of the function")
+	// the declaration records the entry
+	records := false
+	for _, lab := range []string{"type", "struct"} {
+		if tsc := c.mustSwitch().ByLabel[lab]; tsc != nil {
+			ast.Inspect(tsc.Clause, func(n ast.Node) bool {
+				if as, ok := n.(*ast.AssignStmt); ok && len(as.Lhs) == 1 && strings.HasSuffix(nosp(c.Src(as.Lhs[0])), ".localTypes") {
+					if call, ok := unparen(as.Rhs[0]).(*ast.CallExpr); ok && c.CalleeName(call) == "builtin.append" {
+						records = true
+					}
+				}
+				return true
+			})
+		}
+	}
+	r.check(records, "local type recorded", pos, "a function-local type declaration enters the table", "no compile-case records a function-local type declaration in the local-type table: the name is never resolved to the type")
+}
+
+func (c *Ctx) mustSwitch() *bigSwitch {
+	cs, err := c.compileSwitch()
+	if err != nil {
+		return &bigSwitch{ByLabel: map[string]*switchCase{}}
+	}
+	return cs
 }
